@@ -352,6 +352,20 @@ def r_pickler_select(e, R):
     reach = ig.find_path(ig.entry, regc, use_exc=False, edge_ok=SC.Facts([(SC.name(redp), "some")]).edge_ok())
     R.check(bool(loops) and reach is not None, "R-PICKLER-SELECT", f"{ini.short}: registers every reducer of the queue on this pickler", ini.short,
             f"for type, reduce_func in {redp}.items(): self.register(type, reduce_func)", "job_reducers / result_reducers are silently ignored", e.loc(ini, ini.node))
+    reset = lambda n: n.kind == "stmt" and isinstance(n.ast, ast.Assign) and isinstance(n.ast.targets[0], ast.Name) and n.ast.targets[0].id == redp
+    SC.never(e, R, "R-PICKLER-SELECT", ini, "the queue has reducers", [(SC.name(redp), "some")], reset, "a reset of the reducers", "the queue's reducers are replaced by an empty mapping")
+    SC.must(e, R, "R-PICKLER-SELECT", ini, "the queue has no reducers", [(SC.name(redp), "none")], reset, "substitutes an empty mapping", "None.items() raises for every queue without reducers")
+    has_dt = lambda x: isinstance(x, ast.Call) and isinstance(x.func, ast.Name) and x.func.id == "hasattr" and len(x.args) == 2 and isinstance(x.args[1], ast.Constant) \
+        and x.args[1].value == "dispatch_table"
+    own = lambda n: n.kind == "stmt" and isinstance(n.ast, ast.Assign) and any(isinstance(x, ast.Attribute) and x.attr == "dispatch_table" and isinstance(x.value, ast.Name)
+                                                                             and x.value.id == ini.params[0] for x in ast.walk(n.ast.value))
+    glob_dt = lambda n: n.kind == "stmt" and isinstance(n.ast, ast.Assign) and "copyreg.dispatch_table" in norm(n.ast.value)
+    SC.must(e, R, "R-PICKLER-SELECT", ini, "the base pickler has its own dispatch table (cloudpickle)", [(has_dt, "T")], own, "starts from a copy of that table",
+            "cloudpickle's own reducers are lost: functions and classes defined in __main__ stop being picklable")
+    SC.never(e, R, "R-PICKLER-SELECT", ini, "the base pickler has no dispatch table of its own (plain pickle)", [(has_dt, "F")], own, "a read of self.dispatch_table",
+             "AttributeError when the plain pickle backend is selected")
+    SC.must(e, R, "R-PICKLER-SELECT", ini, "the base pickler has no dispatch table of its own (plain pickle)", [(has_dt, "F")], glob_dt, "starts from a copy of copyreg.dispatch_table",
+            "the copyreg reducers are lost with the plain pickle backend")
     if reg is None:
         raise AnalysisError("pickler class: register() not found")
     rg = e.cfg(reg)
